@@ -12,7 +12,7 @@ export const id = 'C11';
 const LOGGING_ATTRS = ['identUnbound', 'member', 'call', 'template', 'arrow', 'objDyn', 'arrDyn', 'cond', 'spreadIdent', 'spreadCall', 'spreadObjLit',
   'classExpr', 'classArr', 'styleExpr', 'onOther', 'onUpdate', 'onObj', 'nativeOnObj', 'strPlain', 'valueless', 'classStr', 'key', 'ref', 'jsxElBraced'];
 const TAGS = [...['div', 'importDefault', 'unboundPascal', 'member1', 'KeepAlive', 'Fragment'].map((f) => TAG_FORMS.find((t) => t.form === f || t.name === f)), ...TAG_FORMS.filter((t) => t.form === 'pattern'), TAG_FORMS.find((t) => t.form === 'importDefaultFragLike')];
-const KID_SHAPES = ['none', 'identUnbound', 'call', 'memberExpr', 'cond', 'mixed1', 'mixed2', 'spread', 'spreadCall', 'nestedComp', 'element', 'text', 'arrow', 'object', 'optMember', 'optMemberDeep', 'template', 'binary', 'newExpr', 'arrayLit', 'logicalOr', 'parenCall', 'awaitLike', 'elementWithDirective', 'elementWithVModel'];
+const KID_SHAPES = ['none', 'identUnbound', 'call', 'memberExpr', 'cond', 'mixed1', 'mixed2', 'spread', 'spreadCall', 'nestedComp', 'element', 'text', 'arrow', 'object', 'optMember', 'optMemberDeep', 'template', 'binary', 'newExpr', 'arrayLit', 'logicalOr', 'parenCall', 'awaitLike', 'elementWithDirective', 'elementWithVModel', 'voidCall', 'voidCallThenText'];
 const KID_KINDS = ['vnode', 'string', 'slots', 'slotfn', 'array'];
 
 const PROBE_RE = /\b([gfm]\d+)\b/g;
@@ -76,6 +76,8 @@ const OPTS = [];
 for (const mergeProps of [true, false]) for (const transformOn of [false, true]) for (const enableObjectSlots of [true, false]) for (const optimize of [false, true]) {
   OPTS.push({ mergeProps, transformOn, enableObjectSlots, optimize, customElementPatterns: optimize ? ['^i-'] : PATTERNS });
 }
+// a custom vnode factory changes who creates the vnodes, not when anything is evaluated
+OPTS.push({ pragma: 'h' }, { pragma: 'h', optimize: true, enableObjectSlots: false });
 
 export function* generate({ tier, seed }) {
   const rng = mulberry32(seed * 15485863 + 17);
